@@ -40,18 +40,18 @@ def run(ctx):
         gcfg = 'GEN_Memo_quick.cfg'
         res, g = tlc.dump_graph(wd, 'MC_Memo.tla', gcfg, timeout=3000)
         ctx.add_tlc('E0+E1 generation ' + gcfg, res, gcfg)
-        base = _base([[g.state(n) for n in p] for p in g.behaviours()])
+        base = _base(([g.state(n) for n in p] for p in g.behaviours()))
         del g
-        items = _expand(base, ctx.seed, 1 if quick else 4)
+        items = _expand(base, ctx.seed, 1 if quick else 3)
         if quick:
-            # a third of the histories per run, chosen by the seed (the thorough tier replays all of them, 4 kind assignments each)
+            # a third of the histories per run, chosen by the seed (the thorough tier replays all of them, 3 kind assignments each)
             items = [it for k, it in enumerate(items) if (k + ctx.seed) % 3 == 0]
         else:
             # deeper graph (3 evaluations, 2 mutations): one kind assignment per history, every eighth history by the seed
             gcfg2 = 'GEN_Memo_thorough.cfg'
             res, g = tlc.dump_graph(wd, 'MC_Memo.tla', gcfg2, timeout=6000)
             ctx.add_tlc('E0+E1 generation ' + gcfg2, res, gcfg2)
-            base2 = _base([[g.state(n) for n in p] for p in g.behaviours()])
+            base2 = _base(([g.state(n) for n in p] for p in g.behaviours()))
             del g
             deep = _expand(base2, ctx.seed + 7, 1)
             items += [it for k, it in enumerate(deep) if (k + ctx.seed) % 8 == 0]
